@@ -2,6 +2,7 @@ package parser
 
 import (
 	"fmt"
+	"strings"
 	"ti/base"
 	"ti/context"
 	"ti/lexer"
@@ -44,8 +45,11 @@ func New(lexer lexer.Lexer, file string) Parser {
 
 func (p *Parser) Fatal(ctx context.Context, err error) {
 	if ctx.IsCheckRound() {
+		// one diagnostic is one output line: a message quoting a newline token must not break the record
+		message := strings.ReplaceAll(fmt.Sprintf("%v", err), "\n", "\\n")
+
 		p.Errors =
-			append(p.Errors, fmt.Errorf("%v:::%d:::%v", p.FileName, p.ErrorRow, err))
+			append(p.Errors, fmt.Errorf("%v:::%d:::%v", p.FileName, p.ErrorRow, message))
 	}
 }
 
